@@ -146,6 +146,7 @@ class StmtsMixin:
         """a literal `[]` stored into a typed slot adopts the slot's element type"""
         if val.ty == ("list", ("dyn",)) and want and want[0] == "list" and want[1] != ("dyn",):
             nv = V(want, val.term, py=val.py)
+            st.set_len(val.term, z3.IntVal(0), want[1])
             if strip_opt(want[1])[0] == "ref":
                 st.set_mem(val.term, z3.K(REF, z3.BoolVal(False))); st.set_nodup(val.term, True)
             return nv
